@@ -24,7 +24,8 @@ RULE = ("(a) each of the 19 shared functions on its whole domain: all 8192 13-bi
         "(c) every decoder of adsb/commb/surv/allcall/bds.infer/tell on generated frames in two package copies bound to py_common and to the emulated module: "
         "identical outcomes (value or exception type, printed text for tell), floats to 1e-9. non-trivial = either side returns a sentinel/None/exception, "
         "lower-case input, or a decoder whose result depends on typecode/altitude/cprNL/squawk"
-        ' Also: eleven malformed variants of every code string, single- and two-bit data strings for wide wrongstatus fields, valid register contents on DF20 frames with unknown / illegal altitude codes in the decoder comparison, crc flags given as 1 / numpy.True_ / numpy.int64(1) / 0 / numpy.False_.')
+        ' Also: eleven malformed variants of every code string, single- and two-bit data strings for wide wrongstatus fields, valid register contents on DF20 frames with unknown / illegal altitude codes in the decoder comparison, crc flags given as 1 / numpy.True_ / numpy.int64(1) / 0 / numpy.False_.'
+        ' bin2hex also on 56 ... 120-bit strings.')
 ASSUMPTIONS = ["no Cython compiler on the image: the working-tree .pyx is observed through a line-by-line emulation of its C typing (DESIGN 2.5); "
                "C undefined behaviour and overflow on assignment to typed locals are outside what it models",
                "the pre-built binary corresponds to the pinned .pyx (fixtures/c_common.pinned.pyx) and is used for calibration only",
